@@ -306,6 +306,14 @@ impl Api {
         }
         r
     }
+    /// typed equality (the library's own `==`) of two decodable byte strings
+    pub fn same(&self, kind: Kind, a: &Blob, b: &Blob) -> R<bool> {
+        let r = monitored("same", || self.s.same(kind, a, b));
+        if self.rec_on() {
+            self.record("same", None, vec![Arg::K(kind), Arg::Blob(a.clone()), Arg::Blob(b.clone())], r.clone().map(|v| hx(&[&vec![v as u8]])), vec![]);
+        }
+        r
+    }
     /// a sequence of server operations on one long-lived in-memory ServerSetup (see Suite::server_session)
     pub fn server_session(&self, setup: &[u8], files: &[Vec<u8>], ops: &[SrvOp]) -> R<Vec<R<Vec<Vec<u8>>>>> {
         let r = monitored("server_session", || self.s.server_session(setup, files, ops));
@@ -355,6 +363,11 @@ impl Api {
             self.record(op, None, args, r.clone().map(|v| hx(&[&v])), vec![]);
         }
         r
+    }
+    /// serde form of a key wrapper as the implementation writes it (harness-side preparation, not recorded: the
+    /// resulting blob is what the recorded decoder calls receive)
+    pub fn ke_key_encode(&self, is_pk: bool, key: &[u8], codec: Codec) -> R<Blob> {
+        monitored("ke_key_encode", || if is_pk { self.s.ke_pk_encode(key, codec) } else { self.s.ke_sk_encode(key, codec) })
     }
     pub fn ke_keypair_pk(&self, sk: &[u8]) -> R<Vec<u8>> {
         self.simple("ke_keypair_pk", vec![Arg::B(sk.to_vec())], || self.s.ke_keypair_pk(sk))
@@ -541,6 +554,13 @@ pub fn reexec(c: &CallRec) -> (Result<Vec<String>, E>, Vec<String>) {
             };
             api.recode(k, &a_blob(&a[1]), to).map(|b| hx(&[&b.bytes]))
         }
+        "same" => {
+            let k = match &a[0] {
+                Arg::K(k) => *k,
+                _ => panic!("replay: same args"),
+            };
+            api.same(k, &a_blob(&a[1]), &a_blob(&a[2])).map(|v| hx(&[&vec![v as u8]]))
+        }
         "ke_keypair_pk" => h1(api.ke_keypair_pk(&a_b(&a[0]))),
         "ke_public_key" => h1(api.ke_public_key(&a_b(&a[0]))),
         "ke_dh" => h1(api.ke_dh(&a_b(&a[0]), &a_b(&a[1]))),
@@ -612,6 +632,7 @@ pub fn reexec(c: &CallRec) -> (Result<Vec<String>, E>, Vec<String>) {
                         "Native" => chain.push(Codec::Native),
                         "Bincode" => chain.push(Codec::Bincode),
                         "Json" => chain.push(Codec::Json),
+                        "Clone" => chain.push(Codec::Clone),
                         _ => {}
                     }
                 }
